@@ -5,7 +5,7 @@ import vlib
 
 def run():
     ok = True
-    for tool in ('java', 'g++', 'mpicxx', 'mpiexec', 'nm', 'cmake'):
+    for tool in ('java', 'g++', 'clang++', 'mpicxx', 'mpiexec', 'nm', 'cmake'):
         if shutil.which(tool) is None:
             print('missing tool:', tool); ok = False
     for j in vlib.JAR.split(':'):
